@@ -45,6 +45,7 @@ type c05Case struct {
 	DecoyWire  *c05Wire `json:"decoywire"`
 	Defaults   bool     `json:"defaults"`
 	Other      bool     `json:"other"`
+	Upper      bool     `json:"upper"`
 }
 
 // c05PathEscape percent-encodes a path segment as a client does: everything url.PathEscape encodes except the
@@ -155,6 +156,15 @@ func c05Run(c *Case) []any {
 	}
 	if tc.Other {
 		q = append(q, "z=1")
+	}
+	if tc.Upper {
+		// an entry that is NOT the parameter: its name differs in letter case (query and cookie names are case-sensitive)
+		switch tc.Cell.In {
+		case "query":
+			q = append([]string{"P=zz"}, q...)
+		case "cookie":
+			cookies = append([]string{"P=zz"}, cookies...)
+		}
 	}
 	if len(q) > 0 {
 		target += "?" + strings.Join(q, "&")
